@@ -19,7 +19,7 @@ func init() {
 	register(&Rule{ID: "C08.a", Doc: "emission skeleton: order, full ranges, terminators, own scripts", Floor: 12, Run: c08a})
 	register(&Rule{ID: "C08.b", Doc: "name binding between entries, script nodes, tables and the numbering counter", Floor: 6, Run: c08b})
 	register(&Rule{ID: "C08.c", Doc: "inline bodies parsed by the block parser and emitted by the script emitter", Floor: 3, Run: c08c})
-	register(&Rule{ID: "C08.d", Doc: "entries appended in source order only", Floor: 3, Run: c08d})
+	register(&Rule{ID: "C08.d", Doc: "entries appended in source order only", Floor: 4, Run: c08d})
 }
 
 // noEarlyExit: the loop containing b has no successful exit other than its header test and
